@@ -3,6 +3,7 @@ known-findings matching, evidence."""
 from __future__ import annotations
 
 import faulthandler
+import gc
 import importlib
 import json
 import multiprocessing
@@ -13,6 +14,7 @@ import time
 import traceback
 from collections import Counter
 from concurrent.futures import ProcessPoolExecutor, as_completed
+from concurrent.futures import TimeoutError as FuturesTimeout
 from concurrent.futures.process import BrokenProcessPool
 
 from . import core
@@ -25,6 +27,7 @@ EVIDENCE_DIR = os.path.join(VERIF, "evidence")
 REPLAY_DIR = os.path.join(VERIF, "replays")
 KNOWN_FILE = os.path.join(VERIF, "known_findings.jsonl")
 DEFAULT_SEED = 20260921
+_RUNS = 0
 
 
 def load_prop(pid: str):
@@ -47,6 +50,14 @@ def repo_head() -> str:
 def run_case(mod, seed: int, params: dict, replay: list | None = None, keep_labels=False,
              want_events=False):
     """Execute one simulated run; never raises (except KeyboardInterrupt)."""
+    # cachebox 6.2 can self-deadlock in native code when the cyclic GC traverses a cache while the
+    # `cached` wrapper holds the cache mutex (observed in the repo's own test-suite): never let the
+    # GC run inside a simulated run; collect between runs instead.
+    gc.disable()
+    global _RUNS
+    _RUNS += 1
+    if _RUNS % 8 == 0:
+        gc.collect()
     tape = Tape(seed=seed, replay=replay, keep_labels=keep_labels)
     kw = dict(getattr(mod, "SIM_KW", {}))
     sim = Sim(tape, prop=mod.ID, **kw)
@@ -268,8 +279,24 @@ def run_batch(pid: str, tier: str, base_seed: int, workers: int | None = None,
                 pending[f] = c
 
         submit_more()
+        last_progress = time.monotonic()
+        stall_cap = float(os.environ.get("SFSIM_STALL_S", 240))
         while pending:
-            done = next(as_completed(list(pending), timeout=budget + 900))
+            try:
+                done = next(as_completed(list(pending), timeout=5))
+            except (TimeoutError, FuturesTimeout):
+                if time.monotonic() - last_progress > stall_cap:
+                    # a worker is stuck in native code (no Python-level watchdog can fire): never
+                    # report success, never hang: kill the pool and report a harness error
+                    for p in list(getattr(ex, "_processes", {}).values()):
+                        try:
+                            p.kill()
+                        except Exception:
+                            pass
+                    total["harness_errors"].append({"message": f"no worker made progress for {stall_cap}s; pool killed"})
+                    break
+                continue
+            last_progress = time.monotonic()
             pending.pop(done)
             agg = done.result()
             for k in ("n", "ok", "steps", "vtime", "nontrivial", "cpu_s"):
@@ -292,7 +319,7 @@ def run_batch(pid: str, tier: str, base_seed: int, workers: int | None = None,
     except BrokenProcessPool as e:
         total["harness_errors"].append({"message": f"worker died: {e!r}"})
     finally:
-        ex.shutdown(wait=True, cancel_futures=True)
+        ex.shutdown(wait=False, cancel_futures=True)
     wall = time.monotonic() - t0
     return finish(mod, pid, tier, base_seed, cfg, total, wall, n_enum, stopped_early, quiet)
 
